@@ -156,3 +156,9 @@ Theorem C03_encoding_every_accepted_value : forall w, no_LF w -> rmatch gen_acce
                  parse_accept_encoding w = Some (map (fun ej => canon (fst ej)) els).
 Proof. exact encoding_accepted_elements. Qed.
 Print Assumptions C03_encoding_every_accepted_value.
+
+Theorem C03_language_every_accepted_value : forall w, no_LF w -> rmatch gen_accept_language w = true ->
+  exists j0 els, all_junk j0 /\ els_ok lang_ok els /\ w = render j0 els /\
+                 parse_accept_language w = Some (map (fun ej => canon (fst ej)) els).
+Proof. exact language_accepted_elements. Qed.
+Print Assumptions C03_language_every_accepted_value.
